@@ -116,6 +116,11 @@ pub fn qplib_model(r: &mut Rng, o: &str, v: &str, c: &str, n: usize, m: usize) -
             if r.chance(1, 2) { bi.push(json!([k, i, ival(r)])); }
         }
     }
+    // the sparse sections may list their entries in any order (e.g. column by column)
+    if r.chance(1, 2) {
+        r.shuffle(&mut qi);
+        r.shuffle(&mut bi);
+    }
     let inf = 1000;
     let side = |r: &mut Rng| -> Value { match r.below(5) { 0 => json!([inf, 1]), 1 => json!([-inf, 1]), 2 => json!([2 * inf, 1]), _ => ival(r) } };
     let mut list = |r: &mut Rng, len: usize, f: &dyn Fn(&mut Rng) -> Value| -> Vec<Value> {
